@@ -88,3 +88,12 @@ Proof.
   eexists. split; [vm_compute; reflexivity|]. split; [vm_compute; reflexivity|].
   split; vm_compute; reflexivity.
 Qed.
+
+(* ---- the synchronisation skeleton the Writer model assumes (which Go critical section each
+   label of Model/Writer.v stands for: Model/SkeletonAssumptions.v, writer_assumptions) holds
+   of /repo's CURRENT source: facts regenerated by harness/cmd/vskel on every run. *)
+From KV Require Model.SkeletonAssumptions Gen.Skeleton Proofs.SkeletonWriter.
+Theorem C07_skeleton_assumptions :
+  KV.Model.SkeletonAssumptions.writer_assumptions_hold KV.Gen.Skeleton.calls KV.Gen.Skeleton.accesses = true.
+Proof. exact KV.Proofs.SkeletonWriter.writer_skeleton_ok. Qed.
+Print Assumptions C07_skeleton_assumptions.
